@@ -250,7 +250,7 @@ def per_call_reset(ctx, rm, rule: str, attrs):
            "" if ok else "per-call state is not reset before the plan starts", where=where(call, call.node))
 
 
-def expand(func_node, expr, depth: int = 4):
+def expand(func_node, expr, depth: int = 4, keep=()):
     """A copy of `expr` in which every local name that has exactly ONE definition in the function (a plain single-target
     assignment) is replaced by its - likewise expanded - right-hand side.  Lets a rule compare what an expression computes
     instead of how many temporaries its author used."""
@@ -275,7 +275,7 @@ def expand(func_node, expr, depth: int = 4):
             self.d = d
 
         def visit_Name(self, n):
-            if isinstance(n.ctx, ast.Load) and counts.get(n.id) == 1 and n.id in defs and n.id not in params and self.d > 0:
+            if isinstance(n.ctx, ast.Load) and counts.get(n.id) == 1 and n.id in defs and n.id not in params and n.id not in keep and self.d > 0:
                 return X(self.d - 1).visit(copy.deepcopy(defs[n.id]))
             return n
     return X(depth).visit(copy.deepcopy(expr))
